@@ -27,7 +27,7 @@ def run(c):
     if thorough:
         cfg = open(os.path.join(sd, "MC_C10.cfg")).read().replace("MaxOpt = 1", "MaxOpt = 2").replace("MsgHi = 45", "MsgHi = 12")
         open(os.path.join(sd, "MC_C10.cfg"), "w").write(cfg)
-    c.stage_a(sd, "MC_C10", "MC_C10", timeout=2400)
+    c.stage_a(sd, "MC_C10", "MC_C10", timeout=2400, coverage=not thorough)
     gen = mc_codec(c, 2 if thorough else 1, shards=9 if thorough else 3, liveness=False, deep=() if thorough else deep_messages(c, 5))
     drv = c.build_driver("codec")
     cases = []
